@@ -283,7 +283,30 @@ def r5_write_data_frame(ctx):
         ctx.ob("R02.5", "Frame::data:fields", ok, "", "Frame::data(id, d) = Frame{Push, id, d}" if ok else "Frame::data does not build Frame{Push, stream_id, data}")
 
 
+def r6_no_alert_for_one_stream(ctx):
+    """an Alert is the session-wide "I am going away": the receiver closes the session and with it every stream on it.  A
+    condition that concerns one stream (a destination that cannot be parsed, resolved or reached) is answered on that stream
+    (a SYNACK carrying the reason) — nothing outside the codec builds an Alert frame"""
+    n = 0
+    bad = []
+    for key, body in ctx.P.scan():
+        if key.startswith(("protocol::", "<protocol::", "anytls_")):
+            continue
+        for bi in sorted(body.reachable()):
+            for st in body.blocks[bi]["stmts"]:
+                if st["s"] == "assign" and st["rv"]["r"] == "aggregate" and str(st["rv"]["kind"].get("adt", "")).endswith("frame::Command"):
+                    n += 1
+                    if st["rv"]["kind"].get("variant") == "Alert":
+                        bad.append((key, st["span"]["line"], st["span"].get("file", "?")))
+    ctx.floor("R02.6", "Command values constructed outside the codec", n, 10)
+    ctx.ob("R02.6", "crate:no-Alert-frame-is-sent-for-a-stream-level-condition", not bad, "%s:%s" % (bad[0][2], bad[0][1]) if bad else "",
+           "%d command values are built outside the codec, none of them Alert" % n if not bad else
+           "%s builds an Alert frame: the peer treats every Alert as fatal for the session, so a problem with one stream (e.g. a destination the server cannot parse) tears down every other stream on the session — "
+           "and the client's pooled session with it, so that the next request dials a new TLS connection" % ctx.P.owner(bad[0][0]).split("::")[-1])
+
+
 def run(ctx):
+    r6_no_alert_for_one_stream(ctx)
     from . import C09 as _C09s
     _C09s.r10_constructor_siblings(ctx)   # both roles start a session in the same state (counter 0, unbuffered, ids from 1): sibling cross-check of the constructors
     from . import C09 as _C09y, C13 as _C13y, C03 as _C03y
